@@ -1,0 +1,373 @@
+//go:build verif
+// +build verif
+
+package raft
+
+import (
+	"bytes"
+	"errors"
+	"fmt"
+	"io"
+)
+
+// Exported wrappers around the unexported codecs, compiled only with the
+// "verif" build tag. They are used by the harness for round-trip checks and
+// to speak the wire protocol as a peer.
+
+// VerifMsg is a request or a response of the wire protocol.
+type VerifMsg struct {
+	Kind string // identity vote append installSnap timeoutNow
+	Term uint64
+	Src  uint64 // requests only
+
+	// requests
+	A, B, C, N uint64 // same meaning as in VerifEv
+	Xfer       bool
+	Cfg        *Config // installSnap: lastConfig
+
+	// responses
+	Result   string
+	ErrOp    string // unexpectedErr: OpError.Op ("" = plain error)
+	ErrMsg   string
+	RespLast uint64 // append
+}
+
+func verifResultByName(s string) (rpcResult, bool) {
+	for r := success; r <= unexpectedErr; r++ {
+		if verifResultName(r) == s {
+			return r, true
+		}
+	}
+	return 0, false
+}
+
+func verifKind(t rpcType) string {
+	switch t {
+	case rpcIdentity:
+		return "identity"
+	case rpcVote:
+		return "vote"
+	case rpcAppendEntries:
+		return "append"
+	case rpcInstallSnap:
+		return "installSnap"
+	case rpcTimeoutNow:
+		return "timeoutNow"
+	}
+	return ""
+}
+
+func verifType(kind string) (rpcType, error) {
+	for t := rpcIdentity; t <= rpcTimeoutNow; t++ {
+		if verifKind(t) == kind {
+			return t, nil
+		}
+	}
+	return 0, fmt.Errorf("verif: unknown message kind %q", kind)
+}
+
+func verifReq(m *VerifMsg) (request, error) {
+	hdr := req{m.Term, m.Src}
+	switch m.Kind {
+	case "identity":
+		return &identityReq{req: hdr, cid: m.A, nid: m.B}, nil
+	case "vote":
+		return &voteReq{req: hdr, lastLogIndex: m.A, lastLogTerm: m.B, transfer: m.Xfer}, nil
+	case "append":
+		return &appendReq{req: hdr, prevLogIndex: m.A, prevLogTerm: m.B, ldrCommitIndex: m.C, numEntries: m.N}, nil
+	case "installSnap":
+		r := &installSnapReq{req: hdr, lastIndex: m.A, lastTerm: m.B, size: int64(m.C)}
+		if m.Cfg != nil {
+			r.lastConfig = m.Cfg.clone()
+		} else {
+			r.lastConfig = Config{Nodes: map[uint64]Node{}}
+		}
+		return r, nil
+	case "timeoutNow":
+		return &timeoutNowReq{hdr}, nil
+	}
+	return nil, fmt.Errorf("verif: unknown message kind %q", m.Kind)
+}
+
+func verifFromReq(r request) VerifMsg {
+	m := VerifMsg{Kind: verifKind(r.rpcType()), Term: r.getTerm(), Src: r.from()}
+	switch r := r.(type) {
+	case *identityReq:
+		m.A, m.B = r.cid, r.nid
+	case *voteReq:
+		m.A, m.B, m.Xfer = r.lastLogIndex, r.lastLogTerm, r.transfer
+	case *appendReq:
+		m.A, m.B, m.C, m.N = r.prevLogIndex, r.prevLogTerm, r.ldrCommitIndex, r.numEntries
+	case *installSnapReq:
+		m.A, m.B, m.C = r.lastIndex, r.lastTerm, uint64(r.size)
+		c := r.lastConfig.clone()
+		m.Cfg = &c
+	}
+	return m
+}
+
+// VerifEncodeReq encodes a request as it goes on the wire, with the leading
+// type byte if withType is set.
+func VerifEncodeReq(m VerifMsg, withType bool) ([]byte, error) {
+	r, err := verifReq(&m)
+	if err != nil {
+		return nil, err
+	}
+	w := new(bytes.Buffer)
+	if withType {
+		if err := writeUint8(w, uint8(r.rpcType())); err != nil {
+			return nil, err
+		}
+	}
+	if err := r.encode(w); err != nil {
+		return nil, err
+	}
+	return w.Bytes(), nil
+}
+
+// VerifDecodeReq decodes a request of the given kind (no type byte).
+func VerifDecodeReq(kind string, r io.Reader) (VerifMsg, error) {
+	t, err := verifType(kind)
+	if err != nil {
+		return VerifMsg{}, err
+	}
+	q := t.createReq()
+	if err := q.decode(r); err != nil {
+		return VerifMsg{}, err
+	}
+	return verifFromReq(q), nil
+}
+
+func verifResp(m *VerifMsg) (response, error) {
+	res, ok := verifResultByName(m.Result)
+	if !ok {
+		return nil, fmt.Errorf("verif: unknown result %q", m.Result)
+	}
+	var e error
+	if res == unexpectedErr {
+		e = errors.New(m.ErrMsg)
+		if m.ErrOp != "" {
+			e = OpError{m.ErrOp, e}
+		}
+	}
+	hdr := resp{m.Term, res, e}
+	switch m.Kind {
+	case "identity":
+		return &identityResp{hdr}, nil
+	case "vote":
+		return &voteResp{hdr}, nil
+	case "append":
+		return &appendResp{hdr, m.RespLast}, nil
+	case "installSnap":
+		return &installSnapResp{hdr}, nil
+	case "timeoutNow":
+		return &timeoutNowResp{hdr}, nil
+	}
+	return nil, fmt.Errorf("verif: unknown message kind %q", m.Kind)
+}
+
+func verifEmptyResp(kind string) (response, error) {
+	switch kind {
+	case "identity":
+		return &identityResp{}, nil
+	case "vote":
+		return &voteResp{}, nil
+	case "append":
+		return &appendResp{}, nil
+	case "installSnap":
+		return &installSnapResp{}, nil
+	case "timeoutNow":
+		return &timeoutNowResp{}, nil
+	}
+	return nil, fmt.Errorf("verif: unknown message kind %q", kind)
+}
+
+// VerifEncodeResp encodes a response.
+func VerifEncodeResp(m VerifMsg) ([]byte, error) {
+	r, err := verifResp(&m)
+	if err != nil {
+		return nil, err
+	}
+	w := new(bytes.Buffer)
+	if err := r.encode(w); err != nil {
+		return nil, err
+	}
+	return w.Bytes(), nil
+}
+
+// VerifDecodeResp decodes a response of the given kind.
+func VerifDecodeResp(kind string, r io.Reader) (VerifMsg, error) {
+	p, err := verifEmptyResp(kind)
+	if err != nil {
+		return VerifMsg{}, err
+	}
+	if err := p.decode(r); err != nil {
+		return VerifMsg{}, err
+	}
+	m := VerifMsg{Kind: kind, Term: p.getTerm(), Result: verifResultName(p.getResult())}
+	if e := p.getErr(); e != nil {
+		if oe, ok := e.(OpError); ok {
+			m.ErrOp, m.ErrMsg = oe.Op, oe.Err.Error()
+		} else {
+			m.ErrMsg = e.Error()
+		}
+	}
+	if ar, ok := p.(*appendResp); ok {
+		m.RespLast = ar.lastLogIndex
+	}
+	return m, nil
+}
+
+// VerifEncodeEntry encodes a log entry (Data is used, Hash ignored).
+func VerifEncodeEntry(e VerifEntry) []byte {
+	w := new(bytes.Buffer)
+	ie := &entry{index: e.Index, term: e.Term, typ: entryType(e.Typ), data: e.Data}
+	if err := ie.encode(w); err != nil {
+		panic(err)
+	}
+	return w.Bytes()
+}
+
+// VerifDecodeEntry decodes a log entry.
+func VerifDecodeEntry(r io.Reader) (VerifEntry, error) {
+	e := &entry{}
+	if err := e.decode(r); err != nil {
+		return VerifEntry{}, err
+	}
+	return *verifEntry(e, true), nil
+}
+
+// VerifConfigEntry returns the log entry that carries c.
+func VerifConfigEntry(c Config) VerifEntry {
+	return *verifEntry(c.encode(), true)
+}
+
+// VerifDecodeConfig decodes a configuration from a config entry.
+func VerifDecodeConfig(e VerifEntry) (Config, error) {
+	c := Config{}
+	err := c.decode(&entry{index: e.Index, term: e.Term, typ: entryType(e.Typ), data: e.Data})
+	return c, err
+}
+
+// VerifEncodeNode / VerifDecodeNode wrap Node.encode / Node.decode.
+func VerifEncodeNode(n Node) []byte {
+	w := new(bytes.Buffer)
+	if err := n.encode(w); err != nil {
+		panic(err)
+	}
+	return w.Bytes()
+}
+
+// VerifDecodeNode decodes a Node.
+func VerifDecodeNode(r io.Reader) (Node, error) {
+	n := Node{}
+	err := n.decode(r)
+	return n, err
+}
+
+// VerifEncodeSnapMeta encodes a snapshot label.
+func VerifEncodeSnapMeta(index, term uint64, c Config, size int64) ([]byte, error) {
+	m := snapshotMeta{index: index, term: term, config: c, size: size}
+	w := new(bytes.Buffer)
+	if err := m.encode(w); err != nil {
+		return nil, err
+	}
+	return w.Bytes(), nil
+}
+
+// VerifDecodeSnapMeta decodes a snapshot label.
+func VerifDecodeSnapMeta(r io.Reader) (index, term uint64, c Config, size int64, err error) {
+	m := snapshotMeta{}
+	if err = m.decode(r); err != nil {
+		return
+	}
+	return m.index, m.term, m.config, m.size, nil
+}
+
+// VerifEncodeInfo / VerifDecodeInfo wrap Info.encode / Info.decode.
+func VerifEncodeInfo(i Info) ([]byte, error) {
+	w := new(bytes.Buffer)
+	if err := i.encode(w); err != nil {
+		return nil, err
+	}
+	return w.Bytes(), nil
+}
+
+// VerifDecodeInfo decodes an Info.
+func VerifDecodeInfo(r io.Reader) (Info, error) {
+	i := Info{}
+	err := i.decode(r)
+	return i, err
+}
+
+// VerifEncodeReplication / VerifDecodeReplication wrap Replication.encode / decode.
+func VerifEncodeReplication(x Replication) ([]byte, error) {
+	w := new(bytes.Buffer)
+	if err := x.encode(w); err != nil {
+		return nil, err
+	}
+	return w.Bytes(), nil
+}
+
+// VerifDecodeReplication decodes a Replication.
+func VerifDecodeReplication(r io.Reader) (Replication, error) {
+	x := Replication{}
+	err := x.decode(r)
+	return x, err
+}
+
+func verifTaskType(name string) (taskType, error) {
+	switch name {
+	case "info":
+		return taskInfo, nil
+	case "changeConfig":
+		return taskChangeConfig, nil
+	case "waitForStableConfig":
+		return taskWaitForStableConfig, nil
+	case "takeSnapshot":
+		return taskTakeSnapshot, nil
+	case "transferLdr":
+		return taskTransferLdr, nil
+	}
+	return 0, fmt.Errorf("verif: unknown task type %q", name)
+}
+
+// VerifEncodeTaskResp encodes the response of an admin task that completed
+// with result (an error value means the task failed with it).
+func VerifEncodeTaskResp(result interface{}) ([]byte, error) {
+	t := newTask()
+	t.reply(result)
+	w := new(bytes.Buffer)
+	if err := encodeTaskResp(t, w); err != nil {
+		return nil, err
+	}
+	return w.Bytes(), nil
+}
+
+// VerifDecodeTaskResp decodes the response of an admin task of the named type.
+func VerifDecodeTaskResp(taskName string, r io.Reader) (interface{}, error) {
+	typ, err := verifTaskType(taskName)
+	if err != nil {
+		return nil, err
+	}
+	return decodeTaskResp(typ, r)
+}
+
+// VerifTaskByte returns the request byte of the named admin task.
+func VerifTaskByte(taskName string) (byte, error) {
+	typ, err := verifTaskType(taskName)
+	return byte(typ), err
+}
+
+// VerifSentinels returns the library's exported sentinel and not-ready
+// errors, by name.
+func VerifSentinels() map[string]error {
+	return map[string]error{
+		"ErrLockExists": ErrLockExists, "ErrServerClosed": ErrServerClosed, "ErrNodeRemoved": ErrNodeRemoved,
+		"ErrIdentityAlreadySet": ErrIdentityAlreadySet, "ErrIdentityNotSet": ErrIdentityNotSet,
+		"ErrFaultyFollower": ErrFaultyFollower, "ErrNotCommitReady": ErrNotCommitReady, "ErrStaleConfig": ErrStaleConfig,
+		"ErrSnapshotThreshold": ErrSnapshotThreshold, "ErrNoUpdates": ErrNoUpdates, "ErrQuorumUnreachable": ErrQuorumUnreachable,
+		"ErrTransferNoVoter": ErrTransferNoVoter, "ErrTransferSelf": ErrTransferSelf,
+		"ErrTransferTargetNonvoter": ErrTransferTargetNonvoter, "ErrTransferInvalidTarget": ErrTransferInvalidTarget,
+	}
+}
